@@ -420,6 +420,21 @@ def run(fn, args, stop_before=None, max_steps=4000, call_model=None, stop_after=
                 else:
                     raise Stop("from_bytes of a non-byte value")
             return BV(rows, const)
+        if name == "try_for_each" and len(argv) == 2 and isinstance(d0, Iter) and closure_of is not None:
+            # results are Option-like values whose discriminant 0 means "continue / Ok" (the caller's call model decides
+            # what the fallible operation returns); the first non-zero discriminant ends the traversal
+            clo = closure_of(t)
+            if clo is None:
+                raise Stop("closure of try_for_each not resolved")
+            while d0.items:
+                item = d0.items.pop(0)
+                env = {"env": argv[1]}
+                byref = (clo.local_ty(1) or "").startswith("&")
+                v2, _ = run(clo, {1: Ref(env, "env") if byref else argv[1], 2: item}, max_steps=max_steps, call_model=call_model, params=params, closure_of=closure_of, const_of=const_of)
+                r2 = v2.get(0)
+                if isinstance(r2, Opt) and r2.some:
+                    return r2
+            return Opt()
         if name == "for_each" and len(argv) == 2 and isinstance(d0, Iter) and closure_of is not None:
             clo = closure_of(t)
             if clo is None:
